@@ -1,3 +1,4 @@
+import Rdpgw.Props.C18Facts
 import Rdpgw.Model.Config
 
 /-!
